@@ -89,6 +89,9 @@ class RealReader:
         self.delivered = []   # canonical messages in delivery order (queue + consumed)
         self._seen = 0
         self.max_retained = 0
+        self.consumed = []        # canonical messages obtained through queue.read()
+        self.read_raised = None
+        self.dropped_by_read = 0
 
     def _sync(self):
         # messages newly put on the queue
@@ -127,20 +130,38 @@ class RealReader:
                 f"{1 if self.proto._reading_paused else 0},{self.exc_code()}")
 
     def read(self):
-        """the non-blocking part of WebSocketDataQueue.read()"""
-        from aiohttp._websocket.models import WebSocketError
+        """one `await queue.read()` through the PUBLIC coroutine (driven by hand: it does not suspend when a
+        message is buffered or the queue is at eof/has an exception; otherwise it would wait -> "r:empty").
+        Records what the consumer actually obtained in self.consumed / self.read_raised."""
         q = self.q
-        if q._buffer:
-            m = q._read_from_buffer()
+        if not q._buffer and not q._eof:
+            return "r:empty"          # read() would park on its waiter
+        nbuf = len(q._buffer)
+        coro = q.read()
+        try:
+            coro.send(None)
+        except StopIteration as st:
+            m = st.value
             self.nread += 1
-            return f"r:{canon_msg(m)},{q._size},{1 if self.proto._reading_paused else 0}"
-        if q._exception is not None:
-            try:
-                q._read_from_buffer()
-            except BaseException as e:  # noqa
-                return "r:raise:" + canon_exc(e)
-            return "r:raise:none"
-        return "r:empty"
+            cm = canon_msg(m)
+            self.consumed.append(cm)
+            return f"r:{cm},{q._size},{1 if self.proto._reading_paused else 0}"
+        except BaseException as e:  # noqa
+            self.read_raised = canon_exc(e)
+            if nbuf:
+                self.dropped_by_read = nbuf   # an error was raised ahead of messages still buffered
+            return "r:raise:" + canon_exc(e)
+        coro.close()
+        q._waiter = None
+        return "r:blocked"
+
+    def drain(self, ops, toks, limit=100000):
+        """the consumer reads until the queue raises / is empty"""
+        for _ in range(limit):
+            t = self.read()
+            ops.append("R"); toks.append(t)
+            if not t.startswith("r:") or t.startswith("r:raise") or t in ("r:empty", "r:blocked"):
+                return
 
 
 def canon_exc(e):
